@@ -1,6 +1,6 @@
 (* Tie theorems for _rpc/_request.py (Request, Response) against Model/Request.v; conventions as in Proofs/Flow_rpc_pdu.v. *)
 From V Require Import Prelude.Base Prelude.PyInt Prelude.PySlice Prelude.PyAst Prelude.PyWorld gen.F_rpc.
-From V Require Import Model.Pdu Model.Request Model.RpcLoop Model.Bind Model.Verification Model.Epm Flow.World_rpc Proofs.Flow_rpc_lib.
+From V Require Import Model.Pdu Model.Request Model.RpcLoop Model.Bind Model.Verification Model.Epm Flow.World_rpc Proofs.Flow_rpc_lib Proofs.Flow_rpc_pdu.
 Local Open Scope string_scope.
 Local Open Scope list_scope.
 Local Open Scope Z_scope.
@@ -11,9 +11,8 @@ Lemma flow_response_unpack mf fuel data h st :
 Proof. unfold response_unpack. destruct st; tie. Qed.
 
 Lemma flow_response_pack mf fuel m :
-  run (W mf) fuel k_flow_response_pack [VO (OResponse m)] =
-  chk (in_range 4 (rs_alloc_hint m) && in_range 2 (rs_context_id m) && in_range 1 (rs_cancel_count m)) (response_pack m).
-Proof. unfold response_pack, response_body, opt_sec_trailer_pack, chk. destruct m as [h [st|] ? ? ? ?]; tie. Qed.
+  run (W mf) fuel k_flow_response_pack [VO (OResponse m)] = chk (response_ranges m) (response_pack m).
+Proof. unfold response_pack, response_body, opt_sec_trailer_pack, response_ranges, chk. destruct m as [h [st|] ? ? ? ?]; tie. Qed.
 
 Lemma flow_request_unpack mf fuel data h st :
   run (W mf) fuel k_flow_request_unpack [VO (OCls CRequest); VB data; VO (OHeader h); vst st] =
@@ -21,6 +20,22 @@ Lemma flow_request_unpack mf fuel data h st :
 Proof. unfold request_unpack, k_req_obj_mask. destruct st; tie. Qed.
 
 Lemma flow_request_pack mf fuel m :
-  run (W mf) fuel k_flow_request_pack [VO (ORequest m)] =
-  chk (in_range 4 (rq_alloc_hint m) && in_range 2 (rq_context_id m) && in_range 2 (rq_opnum m)) (request_pack m).
-Proof. unfold request_pack, request_body, opt_sec_trailer_pack, chk. destruct m as [h [st|] ? ? ? [u|] ?]; tie. Qed.
+  run (W mf) fuel k_flow_request_pack [VO (ORequest m)] = chk (request_ranges m) (request_pack m).
+Proof. unfold request_pack, request_body, opt_sec_trailer_pack, request_ranges, chk. destruct m as [h [st|] ? ? ? [u|] ?]; tie. Qed.
+
+Lemma wf_request_ranges m : wf_request m = true -> request_ranges m = true.
+Proof.
+  unfold wf_request, request_ranges. intros H.
+  split_wf H. wf_msg.
+Qed.
+Lemma wf_response_ranges m : wf_response m = true -> response_ranges m = true.
+Proof.
+  unfold wf_response, response_ranges. intros H.
+  split_wf H. wf_msg.
+Qed.
+Lemma flow_request_pack_wf mf fuel m : wf_request m = true ->
+  run (W mf) fuel k_flow_request_pack [VO (ORequest m)] = Ok (VB (request_pack m)).
+Proof. intros H. rewrite flow_request_pack, (wf_request_ranges m H). reflexivity. Qed.
+Lemma flow_response_pack_wf mf fuel m : wf_response m = true ->
+  run (W mf) fuel k_flow_response_pack [VO (OResponse m)] = Ok (VB (response_pack m)).
+Proof. intros H. rewrite flow_response_pack, (wf_response_ranges m H). reflexivity. Qed.
